@@ -48,7 +48,16 @@ Inductive oop :=
 | FInvoke (t : bool)                           (* ft() *)
 (* optional / expected: value_or *)
 | VValueOrC (t : bool) (j : nat) (x : Z)       (* Tj d(x); { Tj r = v.value_or(d); }            j = the value alternative *)
-| VValueOrM (t : bool) (j : nat) (x : Z).      (* Tj d(x); { Tj r = move(v).value_or(move(d)); } *)
+| VValueOrM (t : bool) (j : nat) (x : Z)       (* Tj d(x); { Tj r = move(v).value_or(move(d)); } *)
+(* a scoped object built from a value: { V c(in_place_index<j>, x); }  (optional(U&&), optional(optional<U>),
+   expected(in_place, x), expected(unexpect, x)) *)
+| VScopedValue (j : nat) (x : Z)
+(* a copy / a moved copy of alternative j of vt is made and destroyed iff it is the live one:
+   expected::and_then (j = error alternative) and or_else (j = value alternative) in the const& / && forms *)
+| VCopyIf (t : bool) (j : nat)
+| VMoveIf (t : bool) (j : nat)
+(* inplace_function from an lvalue callable: Ck c(x); f = c *)
+| FAssignCr (t : bool) (k : nat) (x : Z).
 
 Section Own.
 Variable fl : bool.            (* the instrumented types have move operations *)
@@ -112,6 +121,12 @@ Definition step_var (s : nat * nat) (m : vmem) (o : oop) : G (nat * nat) :=
       done (ext_for j x (con 2 j (Copy (if sel t s =? j then Slot (cid t) j else Ext 0)) ++ dst 2 j)) s
   | VValueOrM t j x =>
       done (ext_for j x (con 2 j (mv fl (if sel t s =? j then Slot (cid t) j else Ext 0)) ++ dst 2 j)) s
+  | VScopedValue j x => done (con 2 j (Value x) ++ dst 2 j) s
+  | VCopyIf t j =>
+      (* has_value() ? invoke(f, **this) : U(unexpect, error())   --   the copy lives in the result *)
+      done (if sel t s =? j then con 2 j (Copy (Slot (cid t) j)) ++ dst 2 j else []) s
+  | VMoveIf t j =>
+      done (if sel t s =? j then con 2 j (mv fl (Slot (cid t) j)) ++ dst 2 j else []) s
   | _ => ret s
   end.
 
@@ -123,6 +138,9 @@ Definition step_fun (s : nat * nat) (m : vmem) (o : oop) : G (nat * nat) :=
       (* operator=(inplace_function other): other is built from the callable; destructor_ptr(own);
          vtable = exchange(other.vtable, empty); relocate_ptr(own, other); ~other is empty *)
       done (ext_for k x (con 2 k (mv fl (Ext 0)) ++ dst (cid t) (sel t s) ++ relocate (cid t) k 2)) (upd t s k)
+  | FAssignCr t k x =>
+      (* the parameter [other] is built by inplace_function(T&&) with T = Ck&: ::new (storage) Ck{closure} copies *)
+      done (ext_for k x (con 2 k (Copy (Ext 0)) ++ dst (cid t) (sel t s) ++ relocate (cid t) k 2)) (upd t s k)
   | FAssignNull t => done (dst (cid t) (sel t s)) (upd t s 0)
   | FCopyAssign t =>
       done (con 2 (sel (negb t) s) (Copy (Slot (cid (negb t)) (sel (negb t) s))) ++
